@@ -13,7 +13,7 @@ BUILTIN_NAMES = set('len list tuple set frozenset dict zip enumerate reversed ra
                     'getattr setattr hasattr delattr str int float bool min max sum abs repr type print property object '
                     'all any map'.split())
 SPEC_NAMES = set('old result implies fresh unchanged unchanged_except seq_remove seq_index count_true typeof_is ite at_label '
-                 'map_keys map_has map_get contains_all is_int is_str is_none is_bool is_real upper lower class_defaults'.split())
+                 'map_keys map_has map_get contains_all is_int is_str is_none is_bool is_real upper lower class_defaults int_str every refs ints strs vals'.split())
 EXC_NAMES = set('Exception KeyError IndexError ValueError TypeError AttributeError StopIteration ZeroDivisionError AssertionError '
                 'RuntimeError NotImplementedError LookupError ArithmeticError BaseException'.split())
 
@@ -320,7 +320,10 @@ class ExprMixin(object):
         left = self.ev(node.left, st)
         conj = []
         for op, rn in zip(node.ops, node.comparators):
-            right = self.ev(rn, st)
+            if isinstance(op, (ast.In, ast.NotIn)) and isinstance(rn, (ast.List, ast.Tuple, ast.Set)):
+                right = PyTuple([self.ev(e, st) for e in rn.elts])       # membership in a literal: element-wise ==
+            else:
+                right = self.ev(rn, st)
             conj.append(self.compare(op, left, right, st))
             left = right
         return mk_bool(z3.And(conj) if len(conj) > 1 else conj[0])
